@@ -118,11 +118,11 @@ func MakeConfig(seed uint64, profile, tier string) SwarmConfig {
 		emph("perp", "levlp", "liquidator", "lender")
 		c.PriceVol = pick(r, []float64{0.02, 0.06})
 	case "C12", "C14":
-		emph("commit", "lp", "lender")
+		emph("commit", "lp", "lender", "govchaos")
 	case "C13":
 		emph("trader", "lp", "commit", "perp", "incentive")
 	case "C15":
-		emph("donor", "commit", "trader")
+		emph("donor", "commit", "trader", "govchaos")
 	case "C16":
 		emph("oraclechaos")
 	case "C17":
